@@ -125,7 +125,7 @@ class C03(PropCheck):
             out.append({"k": "chain", "root": "coro", "links": [rng.choice(chains.CORO_LINKS) for _ in range(n)],
                         "end": "trap", "two_points": False, "step": 0})
             out.append({"k": "chain", "root": "gen", "links": ["yield_from"] * n, "end": "trap", "two_points": False, "step": 0})
-        for root in ("coro", "agen", "gen"):
+        for root in ("coro", "agen", "gen", "agen_thrown_out", "agen_closed_in_finally", "gen_thrown_out", "coro_thrown_out"):
             out.append({"k": "exhausted", "root": root})
         return out
 
@@ -147,6 +147,50 @@ class C03(PropCheck):
                     yield
                 x = g()
                 list(x)
+            elif root in ("agen_thrown_out", "agen_closed_in_finally"):
+                # finished by an exception thrown into an in-flight aclose()/asend() awaitable while its finally clause was
+                # awaiting (CPython 3.12 then leaves ag_running set on the finished generator)
+                async def a2():
+                    try:
+                        yield 0
+                    finally:
+                        await chains.trap()
+                x = a2()
+                d0 = x.asend(None)
+                try:
+                    d0.send(None)
+                except StopIteration:
+                    pass
+                d = x.aclose()
+                d.send(None)
+                try:
+                    if root == "agen_thrown_out":
+                        d.throw(chains.Probe2())
+                    else:
+                        d.send(None)
+                except (chains.Probe2, StopIteration, StopAsyncIteration):
+                    pass
+            elif root == "gen_thrown_out":
+                def g2():
+                    try:
+                        yield 1
+                    finally:
+                        pass
+                x = g2()
+                next(x)
+                try:
+                    x.throw(chains.Probe2())
+                except chains.Probe2:
+                    pass
+            elif root == "coro_thrown_out":
+                async def f2():
+                    await chains.trap()
+                x = f2()
+                x.send(None)
+                try:
+                    x.throw(chains.Probe2())
+                except chains.Probe2:
+                    pass
             else:
                 async def a():
                     yield 1
